@@ -23,6 +23,10 @@ from mypy.nodes import (
 ConstantValue = int | bool | float | complex | str
 CONST_TYPES: Final = (int, bool, float, complex, str)
 
+# Don't fold shifts, powers and sequence repetitions whose result would have more bits
+# (or items) than this. Computing them could take unbounded time and memory for no benefit.
+MAX_FOLDED_SIZE: Final = 4096
+
 
 def constant_fold_expr(expr: Expression, cur_mod_id: str) -> ConstantValue | None:
     """Return the constant value of an expression for supported operations.
@@ -94,19 +98,25 @@ def constant_fold_binary_op(
     if op == "+" and isinstance(left, str) and isinstance(right, str):
         return left + right
     elif op == "*" and isinstance(left, str) and isinstance(right, int):
-        return left * right
+        if len(left) * right <= MAX_FOLDED_SIZE:
+            return left * right
     elif op == "*" and isinstance(left, int) and isinstance(right, str):
-        return left * right
+        if left * len(right) <= MAX_FOLDED_SIZE:
+            return left * right
 
     # Complex construction.
-    if op == "+" and isinstance(left, (int, float)) and isinstance(right, complex):
-        return left + right
-    elif op == "+" and isinstance(left, complex) and isinstance(right, (int, float)):
-        return left + right
-    elif op == "-" and isinstance(left, (int, float)) and isinstance(right, complex):
-        return left - right
-    elif op == "-" and isinstance(left, complex) and isinstance(right, (int, float)):
-        return left - right
+    try:
+        if op == "+" and isinstance(left, (int, float)) and isinstance(right, complex):
+            return left + right
+        elif op == "+" and isinstance(left, complex) and isinstance(right, (int, float)):
+            return left + right
+        elif op == "-" and isinstance(left, (int, float)) and isinstance(right, complex):
+            return left - right
+        elif op == "-" and isinstance(left, complex) and isinstance(right, (int, float)):
+            return left - right
+    except OverflowError:
+        # An int operand may be too large to convert to float.
+        return None
 
     return None
 
@@ -120,7 +130,10 @@ def constant_fold_binary_int_op(op: str, left: int, right: int) -> int | float |
         return left * right
     elif op == "/":
         if right != 0:
-            return left / right
+            try:
+                return left / right
+            except OverflowError:
+                return None
     elif op == "//":
         if right != 0:
             return left // right
@@ -134,13 +147,13 @@ def constant_fold_binary_int_op(op: str, left: int, right: int) -> int | float |
     elif op == "^":
         return left ^ right
     elif op == "<<":
-        if right >= 0:
+        if 0 <= right <= MAX_FOLDED_SIZE:
             return left << right
     elif op == ">>":
         if right >= 0:
             return left >> right
     elif op == "**":
-        if right >= 0:
+        if right >= 0 and (abs(left) <= 1 or left.bit_length() * right <= MAX_FOLDED_SIZE):
             ret = left**right
             assert isinstance(ret, int)
             return ret
@@ -149,30 +162,30 @@ def constant_fold_binary_int_op(op: str, left: int, right: int) -> int | float |
 
 def constant_fold_binary_float_op(op: str, left: int | float, right: int | float) -> float | None:
     assert not (isinstance(left, int) and isinstance(right, int)), (op, left, right)
-    if op == "+":
-        return left + right
-    elif op == "-":
-        return left - right
-    elif op == "*":
-        return left * right
-    elif op == "/":
-        if right != 0:
-            return left / right
-    elif op == "//":
-        if right != 0:
-            return left // right
-    elif op == "%":
-        if right != 0:
-            return left % right
-    elif op == "**":
-        if (left < 0 and isinstance(right, int)) or left > 0:
-            try:
+    try:
+        if op == "+":
+            return left + right
+        elif op == "-":
+            return left - right
+        elif op == "*":
+            return left * right
+        elif op == "/":
+            if right != 0:
+                return left / right
+        elif op == "//":
+            if right != 0:
+                return left // right
+        elif op == "%":
+            if right != 0:
+                return left % right
+        elif op == "**":
+            if (left < 0 and isinstance(right, int)) or left > 0:
                 ret = left**right
-            except OverflowError:
-                return None
-            else:
                 assert isinstance(ret, float), ret
                 return ret
+    except OverflowError:
+        # The result is out of range, or an int operand is too large to convert to float.
+        return None
 
     return None
 
